@@ -1,5 +1,5 @@
 PROP = {
-    "kani_groups": ["hk_otlp"],
+    "kani_groups": ["hk_otlp", "hk_file_w"],
     "smt": [],
     "level_text": "PARTIAL claim: decides, for the OTLP any-value bridge (data::any_value::EmitValue), that directly captured "
                   "scalars and a table of concrete structured shapes (sequences, text-keyed and null-keyed maps, nested once) "
@@ -7,33 +7,82 @@ PROP = {
                   "type, and that integers beyond OTLP's int64 (u64 above i64::MAX, 128-bit) become decimal text. Maps with "
                   "non-text keys reach todo!() (thorough tier, known finding). Values of symbolic shape, the attribute lists of "
                   "the three encoders, the file and terminal writers and all byte-level JSON/protobuf well-formedness are NOT "
-                  "decided (see outside).",
+                  "decided (see outside). Rolling-file writer (group hk_file_w): decides that the record emit_file's default writer STREAMS "
+                  "for an event meets sval_json's documented contract for a JSON object - one record_begin/record_end pair around "
+                  "everything, the fixed fields [ts_start] [ts] mdl msg tpl first and in that order, every further entry "
+                  "record_value_begin(K) <one value> record_value_end(K) with the same label, no label that needs JSON escaping tagged "
+                  "VALUE_IDENT (the one tag on which sval_json writes a label verbatim), every distinct property key exactly once with "
+                  "the value of its first occurrence - and that a consumer error inside the record makes the writer return Err "
+                  "instead of closing a truncated record. The bytes sval_json produces from that stream are NOT decided.",
     "technique": "bounded model checking (Kani/CBMC) of the real adapter streaming into a recording sval::Stream that checks "
-                 "token balance and the AnyValue member / KeyValue field every token is written under",
+                 "token balance and the AnyValue member / KeyValue field every token is written under; for the file writer: the real "
+                 "default_writer / EventValue::stream / Props::dedup / ErasedProps / value-bag sval bridge with the single "
+                 "sval_json::stream_to_io_write call redirected (source substitution) to a recording sval::Stream, the recorded "
+                 "calls checked against sval_json's contract",
     "functions": [
         "<emit_otlp::data::any_value::EmitValue as sval_ref::ValueRef>::stream_ref and every method of its AnyStream adapter "
         "(null, bool, i64, f64, text_*, binary_*, seq_*, map_*, any_value_begin/end; u64/i128/u128 through sval's default forwarding)",
         "value_bag sval2 bridge (ValueBag::stream_ref, Sval2Visitor) for primitive captures and for Value::from_sval",
         "sval::stream_number / sval::Display for u64, i128, u128 (core::fmt integer formatting at the pinned extremes)",
+        "hk_file_w: emit_file::default_writer and <default_writer::EventValue as sval::Value>::stream (all of it: extent handling, the five "
+        "fixed fields, the per-property closure, error propagation, record_end), io::Error::new on the Err path",
+        "hk_file_w: <emit::props::Dedup<&dyn ErasedProps> as Props>::for_each (first value wins) over verif_small_map::SmallMap, "
+        "<[(&str, Value)] as Props>::for_each through dyn ErasedProps, impl Ord for emit::Str, Event::{new, erase, extent, mdl, msg, tpl, props}, "
+        "Extent::{point, range, as_point, as_range}",
+        "hk_file_w: value_bag sval2 bridge (ValueBag::stream_ref, Sval2Visitor) for i32 / bool / &str captures, sval::Display::stream "
+        "(text_begin / text_end around the stubbed fragments), sval::Label::{new, new_computed, as_str, tag}, sval::Tag equality",
     ],
     "bounds": "scalars, one per run: null, bool (both), i64 (all), f64 (all n + 0.5 for 32-bit n), text in {\"\", \"ab\"}, "
               "u64 <= i64::MAX (all), u64 in {i64::MAX + 1, u64::MAX}, i128::MIN, u128::MAX; structured values: the 18 concrete "
               "token sequences of c13_anyvalue.rs SHAPES (scalar; empty / 2-element / nested sequences; empty, 1- and 2-entry maps "
               "with text keys, a null key, sequence and map values, a map inside a sequence; thorough: one map per non-text key "
-              "kind bool, i64, f64, bytes, sequence, map) with fixed scalar payloads; text compared by first byte and length",
+              "kind bool, i64, f64, bytes, sequence, map) with fixed scalar payloads; text compared by first byte and length. "
+              "hk_file_w (file writer): one event per harness, module `m`, template `t`; extent none / point / range (a constant of the "
+              "harness; one thorough harness with the extent symbolic); exactly 0, 1, 2 or 3 properties (a constant); all values of "
+              "one kind per harness - i32 (any), bool (both), text in {\"x\", \"yz\"}; keys: with ONE property any text of 0..=2 "
+              "characters over {a, \", \\, newline} or any key of the pool {a, a\"b, a\\, empty, newline}; with 2 or 3 properties "
+              "constant key patterns out of the pool (quick: a\"b, a, a\"b; and the same key twice with the two properties given as pair.and_props(pair), "
+              "the shape of 'event properties followed by ambient properties': c13_q_file_writer_record_concatenated_dup; thorough: all equal, three distinct incl. empty and "
+              "newline, late duplicate, newline twice); consumer-error harnesses: ONE failing call at any position of the record "
+              "(2 properties, no extent; thorough: 1 text property, range extent); labels and texts observed as length + first 8 bytes",
     "outside": "values of SYMBOLIC shape: emit::Value::from_sval erases value and stream behind dyn (sval_dynamic) and with a "
                "symbolic token sequence CBMC explores every sval implementor of the binary — a container of <= 2 scalars did not "
                "leave symbolic execution in 15 min (c13_t_any_value_*_depth1 kept in the thorough tier to repeat the measurement); "
                "hence no 'for all sequences' claim, only the table. Attribute lists of the logs/traces/metrics encoders "
                "(duplicate and well-known keys; by reading metrics.rs:90-108 metric attributes are not de-duplicated), "
-               "emit_term's sparkline index arithmetic, the rolling-file writer, TraceId/SpanId raw encoders: not built. "
+               "emit_term's sparkline index arithmetic, TraceId/SpanId raw encoders: not built. Rolling-file writer: SYMBOLIC keys in two or more "
+               "properties do not fit (two keys symbolic - by pool index or by content, each in its own buffer - 12.6 M SAT variables, out of "
+               "memory at 12 GB after 150 s of symbolic execution; one symbolic + one constant key: the same), a symbolic NUMBER of "
+               "properties or a symbolic value kind neither (value-bag's internal tag becomes symbolic: > 8 min of symbolic execution for "
+               "one property); so duplicates are decided for constant key patterns only. Structured / 128-bit / float / Display- / Debug- / "
+               "error-captured property values, property keys equal to a fixed field name (`msg`, `ts` ...: the record then carries that name "
+               "twice), the texts of ts / mdl / msg / tpl (core::fmt), the separator handling and the batching in FileSetInner::emit, "
+               "FileSet::spawn: not decided. "
                "Byte-level well-formedness of the JSON/protobuf output and decoding with the official schema (sval_json, "
                "sval_protobuf, float formatting, prost): third-party trait-object streaming, not encodable within reach",
     "stubs": [
         "verif::stream_any_value: pub door to the crate-private EmitValue adapter (inject/otlp.rs)",
         "kani -Z restrict-vtable (virtual calls restricted to functions present in a vtable of the trait method)",
+        "hk_file_w / stubs/file_writer.toml writer-json-to-recorder: the call sval_json::stream_to_io_write(buf, EventValue(evt)) in default_writer -> "
+        "verif_writer::stream_to_recorder (inject/file_writer.rs): streams the REAL EventValue into a recording sval::Stream (fixed array of "
+        "(call kind, label length + first 8 bytes, label tagged VALUE_IDENT?, label tagged at all?, scalar payload)); models sval_json as a "
+        "consumer of the stream protocol; can be told to answer Err at call number k (a consumer whose writer / key check fails); "
+        "verif_writer::{default_writer, new_buf}: pub doors to the private writer and FileBuf::new",
+        "hk_file_w / stubs/file_writer.toml dedup-small-map: alloc::collections::BTreeMap::new() inside Dedup::for_each -> verif_small_map::SmallMap "
+        "(inject/core_smallmap.rs): 3-slot ordered array map with the three operations used (new, entry(k).or_insert(v), by-value iteration "
+        "in key order), std's semantics, the key's own Ord (emit's impl Ord for Str); std's B-tree is trusted (its node navigation loops are "
+        "unrolled to the global bound at every level: no result in 8 min for one property); more than 3 distinct keys fail the harness",
+        "hk_file_w: sval::stream_display_fragments -> no fragments (#[kani::stub]): core::fmt of timestamps / paths / templates does not finish "
+        "under CBMC; the text_begin / text_end around it stay real; the native replay runs the real function",
+        "hk_file_w: sval_fmt::stream_debug / sval_fmt::stream_display (value-bag's Debug, Display and error arms) -> fail the harness when reached: "
+        "no property value of these harnesses is captured that way; without the stubs CBMC walks core::fmt::write over every Debug impl",
     ],
-    "assumptions": [],
+    "assumptions": [
+        "hk_file_w: sval_json's contract as read from sval_json 2.22 src/to_fmt.rs: record_begin writes `{`, record_value_begin(label) writes "
+        "`\"label\":` with the label JSON-escaped unless it carries sval::tags::VALUE_IDENT (then verbatim), record_end writes `}`, an error "
+        "returned from a call is forgotten if the outer Value::stream returns Ok",
+        "hk_file_w: key texts are ASCII (built with from_utf8_unchecked from the alphabet), at most 3 bytes",
+    ],
     "timeout": {"quick": 600, "thorough": 1200},
-    "slow_first": [r"u64_beyond", r"depth1"],
+    "slow_first": [r"u64_beyond", r"depth1", r"file_writer_record_x3", r"file_writer_record_x2_p3", r"file_writer_consumer_error"],
 }
